@@ -14,6 +14,7 @@ import (
 
 	"github.com/hashicorp/consul/agent/structs"
 	"github.com/hashicorp/consul/internal/verifkit"
+	kvm "github.com/hashicorp/consul/internal/verifkvm"
 	vs "github.com/hashicorp/consul/internal/verifstate"
 	"pgregory.net/rapid"
 )
@@ -27,11 +28,11 @@ func TestVerifC03Model(t *testing.T) {
 	rapid.Check(t, func(t *rapid.T) {
 		c := rec.NewCase()
 		n := rapid.IntRange(1, maxSteps).Draw(t, "steps")
-		verifKVRun("C03", t, c, nil, func(x *verifKVMachine, i int) *vs.Op {
+		kvm.Run("C03", t, c, nil, func(x *kvm.Machine, i int) *vs.Op {
 			if i >= n {
 				return nil
 			}
-			return x.w.DrawOp(t, verifC03Cfg)
+			return x.W.DrawOp(t, verifC03Cfg)
 		})
 		c.Done()
 	})
@@ -61,14 +62,14 @@ func TestVerifC03Replay(t *testing.T) {
 		for name, ops := range verifC03Witnesses() {
 			c := rec.NewCase()
 			c.Label("witness:" + name)
-			verifKVRun("C03", t, c, nil, verifOpsFeeder(ops))
+			kvm.Run("C03", t, c, nil, kvm.OpsFeeder(ops))
 			c.Done()
 		}
 	}
 	for _, path := range verifkit.ReplayFiles("C03") {
 		c := rec.NewCase()
 		c.Label("replay")
-		verifKVRun("C03", t, c, nil, verifOpsFeeder(verifLoadOps(t, path)))
+		kvm.Run("C03", t, c, nil, kvm.OpsFeeder(kvm.LoadOps(t, path)))
 		c.Done()
 	}
 }
@@ -87,11 +88,11 @@ func TestVerifC03Exhaustive(t *testing.T) {
 	pool := vs.SessionPool(2)
 	type sym struct {
 		name string
-		mk   func(x *verifKVMachine, idx uint64) *vs.Op
+		mk   func(x *kvm.Machine, idx uint64) *vs.Op
 	}
 	var alphabet []sym
-	cur := func(x *verifKVMachine, k string) uint64 {
-		if e := x.w.KVEntry(k); e != nil {
+	cur := func(x *kvm.Machine, k string) uint64 {
+		if e := x.W.KVEntry(k); e != nil {
 			return e.ModifyIndex
 		}
 		return 0
@@ -99,23 +100,23 @@ func TestVerifC03Exhaustive(t *testing.T) {
 	for _, k := range keys {
 		k := k
 		alphabet = append(alphabet,
-			sym{"set1:" + k, func(x *verifKVMachine, i uint64) *vs.Op { return vs.NewKV(vs.KVSet, i, k, []byte("v1"), 0, 0, "") }},
-			sym{"set2:" + k, func(x *verifKVMachine, i uint64) *vs.Op { return vs.NewKV(vs.KVSet, i, k, []byte("v2"), 1, 0, "") }},
-			sym{"cas0:" + k, func(x *verifKVMachine, i uint64) *vs.Op { return vs.NewKV(vs.KVCAS, i, k, []byte("v1"), 0, 0, "") }},
-			sym{"cascur:" + k, func(x *verifKVMachine, i uint64) *vs.Op { return vs.NewKV(vs.KVCAS, i, k, []byte("v2"), 0, cur(x, k), "") }},
-			sym{"casstale:" + k, func(x *verifKVMachine, i uint64) *vs.Op { return vs.NewKV(vs.KVCAS, i, k, []byte("v2"), 0, cur(x, k)+1, "") }},
-			sym{"del:" + k, func(x *verifKVMachine, i uint64) *vs.Op { return vs.NewKV(vs.KVDelete, i, k, nil, 0, 0, "") }},
-			sym{"delcascur:" + k, func(x *verifKVMachine, i uint64) *vs.Op { return vs.NewKV(vs.KVDeleteCAS, i, k, nil, 0, cur(x, k), "") }},
-			sym{"lock0:" + k, func(x *verifKVMachine, i uint64) *vs.Op { return vs.NewKV(vs.KVLock, i, k, []byte("v1"), 0, 0, pool[0]) }},
-			sym{"lock1:" + k, func(x *verifKVMachine, i uint64) *vs.Op { return vs.NewKV(vs.KVLock, i, k, []byte("v1"), 0, 0, pool[1]) }},
-			sym{"unlock0:" + k, func(x *verifKVMachine, i uint64) *vs.Op { return vs.NewKV(vs.KVUnlock, i, k, []byte("v1"), 0, 0, pool[0]) }},
+			sym{"set1:" + k, func(x *kvm.Machine, i uint64) *vs.Op { return vs.NewKV(vs.KVSet, i, k, []byte("v1"), 0, 0, "") }},
+			sym{"set2:" + k, func(x *kvm.Machine, i uint64) *vs.Op { return vs.NewKV(vs.KVSet, i, k, []byte("v2"), 1, 0, "") }},
+			sym{"cas0:" + k, func(x *kvm.Machine, i uint64) *vs.Op { return vs.NewKV(vs.KVCAS, i, k, []byte("v1"), 0, 0, "") }},
+			sym{"cascur:" + k, func(x *kvm.Machine, i uint64) *vs.Op { return vs.NewKV(vs.KVCAS, i, k, []byte("v2"), 0, cur(x, k), "") }},
+			sym{"casstale:" + k, func(x *kvm.Machine, i uint64) *vs.Op { return vs.NewKV(vs.KVCAS, i, k, []byte("v2"), 0, cur(x, k)+1, "") }},
+			sym{"del:" + k, func(x *kvm.Machine, i uint64) *vs.Op { return vs.NewKV(vs.KVDelete, i, k, nil, 0, 0, "") }},
+			sym{"delcascur:" + k, func(x *kvm.Machine, i uint64) *vs.Op { return vs.NewKV(vs.KVDeleteCAS, i, k, nil, 0, cur(x, k), "") }},
+			sym{"lock0:" + k, func(x *kvm.Machine, i uint64) *vs.Op { return vs.NewKV(vs.KVLock, i, k, []byte("v1"), 0, 0, pool[0]) }},
+			sym{"lock1:" + k, func(x *kvm.Machine, i uint64) *vs.Op { return vs.NewKV(vs.KVLock, i, k, []byte("v1"), 0, 0, pool[1]) }},
+			sym{"unlock0:" + k, func(x *kvm.Machine, i uint64) *vs.Op { return vs.NewKV(vs.KVUnlock, i, k, []byte("v1"), 0, 0, pool[0]) }},
 		)
 	}
 	alphabet = append(alphabet,
-		sym{"deltree:a", func(x *verifKVMachine, i uint64) *vs.Op { return vs.NewKV(vs.KVDeleteTree, i, "a", nil, 0, 0, "") }},
-		sym{"deltree:a/", func(x *verifKVMachine, i uint64) *vs.Op { return vs.NewKV(vs.KVDeleteTree, i, "a/", nil, 0, 0, "") }},
-		sym{"destroy0", func(x *verifKVMachine, i uint64) *vs.Op { return vs.NewSessDestroy(i, pool[0]) }},
-		sym{"destroy1", func(x *verifKVMachine, i uint64) *vs.Op { return vs.NewSessDestroy(i, pool[1]) }},
+		sym{"deltree:a", func(x *kvm.Machine, i uint64) *vs.Op { return vs.NewKV(vs.KVDeleteTree, i, "a", nil, 0, 0, "") }},
+		sym{"deltree:a/", func(x *kvm.Machine, i uint64) *vs.Op { return vs.NewKV(vs.KVDeleteTree, i, "a/", nil, 0, 0, "") }},
+		sym{"destroy0", func(x *kvm.Machine, i uint64) *vs.Op { return vs.NewSessDestroy(i, pool[0]) }},
+		sym{"destroy1", func(x *kvm.Machine, i uint64) *vs.Op { return vs.NewSessDestroy(i, pool[1]) }},
 	)
 	reg := &structs.RegisterRequest{Datacenter: "dc1", Node: "n1", ID: vs.NodeIDs["n1"], Address: "10.0.0.1"}
 	prelude := []*vs.Op{
@@ -136,12 +137,12 @@ func TestVerifC03Exhaustive(t *testing.T) {
 			}
 			c.Op(names)
 			c.Label("exhaustive")
-			x := verifKVNew("C03", t, c, nil)
+			x := kvm.New("C03", t, c, nil)
 			for _, op := range prelude {
-				x.step(op)
+				x.Step(op)
 			}
 			for i, s := range seq {
-				x.step(alphabet[s].mk(x, uint64(20+2*i)))
+				x.Step(alphabet[s].mk(x, uint64(20+2*i)))
 			}
 			c.NonTrivial()
 			c.Done()
